@@ -147,6 +147,12 @@ static void split_before_chunk(Chunk *pc)
       return;
    }
 
+   if (pc->Is(CT_CASE_COLON))
+   {
+      // 'default' + newline + ':' is not recognised as a label when the output is read again
+      return;
+   }
+
    if (  !pc->IsNewline()
       && !prev->IsNewline())
    {
